@@ -649,7 +649,14 @@ def case_area(ctx, rng, T, cls, latlon, shape, nontriv, glob=False):
     via = "gis"
     if unit == "m2" and rng.random() < 0.5:
         via = "flw"
-        err, val = call(lambda: flw_of(shape, T, latlon).area)
+        flw = flw_of(shape, T, latlon)
+        if rng.random() < 0.6:
+            # the cell-area grid is a query of its own: reading it after an accumulation in another unit
+            # must give the same m2 values (the accumulation may not rescale the grid it was handed)
+            pre = rng.choice(["km2", "ha", "m2", "cell"])
+            call(lambda: flw.upstream_area(pre))
+            ctx.count("area:after-upstream_area:" + pre)
+        err, val = call(lambda: flw.area)
     else:
         err, val = call(gis.area_grid, T, shape, latlon, unit)
     ctx.count("area:" + ("geo" if latlon else "proj") + ":" + unit + (":global" if glob else ""))
